@@ -32,40 +32,31 @@ func runRoundTrip(o opts, out *Output, sig int) {
 	sb.WriteString("Definition rt_cases : list (list tree * list tree) := [\n")
 	nc := 0
 	for c := 0; c < o.n; c++ {
-		g := &OGen{r: r.Fork(), Wide: r.Chance(25)}
+		g := &OGen{r: r.Fork(), Wide: r.Chance(25), Mono: monoPick(r)}
 		var options []cfgpkg.Option
 		pr := newProducerRun(options...)
 		cons := arrow_record.NewConsumer()
 		nb := 1 + r.Intn(5)
-		for b := 0; b < nb; b++ {
-			data := genAnyN(g, r, sig, 1+r.Intn(7))
-			if itemCount(data) == 0 {
-				continue
-			}
-			var in itemsOut
-			switch d := data.(type) {
-			case ptrace.Traces:
-				in = tracesItems(d)
-			case plog.Logs:
-				in = logsItems(d)
-			case pmetric.Metrics:
-				in = metricsItems(d)
-			}
-			res := pr.produce(data)
-			if res.Class != "ok" {
-				stats["producer_"+res.Class]++
-				break
-			}
-			for _, e := range res.Events {
-				stats["event_"+e.Kind]++
-			}
+		// a consumer may lag behind the producer: up to `lag` batches are produced before the oldest
+		// one is decoded (always in stream order)
+		lag := []int{0, 0, 1, 2}[r.Intn(4)]
+		stats[fmt.Sprintf("lag_%d", lag)]++
+		type queued struct {
+			b    int
+			in   itemsOut
+			res  *batchOut
+			data any
+		}
+		var queue []queued
+		consumeOne := func(q queued) bool {
+			b, in, res, data := q.b, q.in, q.res, q.data
 			var outItems itemsOut
 			cr := consumeAny(cons, signal, res.Bar)
 			stats["consumer_"+cr.Class]++
-			replay := map[string]any{"seed": o.seed, "case": c, "batch": b, "signal": signal}
+			replay := map[string]any{"seed": o.seed, "case": c, "batch": b, "signal": signal, "lag": lag}
 			if cr.Class != "ok" {
 				out.Violation(fmt.Sprintf("C0%d", sig+1), "valid-batch-not-decoded", fmt.Sprintf("the consumer did not decode a valid batch: %s %s", cr.Class, cr.Msg), replay)
-				break
+				return false
 			}
 			outItems = cr.Trees
 			if sig < 2 && cr.Decoded != nil {
@@ -90,7 +81,41 @@ func runRoundTrip(o opts, out *Output, sig int) {
 				// Go-side oracle (same normalisations, used for diagnostics and for the failing-input search)
 				out.Violation(fmt.Sprintf("C0%d", sig+1), "roundtrip-differs", "decoded telemetry differs from the encoded one: "+d, replay)
 			}
-			out.AddCase(map[string]any{"case": c, "batch": b, "items": itemCount(data), "payloads": describe(res.Bar)}, true, fmt.Sprintf("%s batch=%d items=%s", signal, b, bucketN(itemCount(data))))
+			out.AddCase(map[string]any{"case": c, "batch": b, "lag": lag, "items": itemCount(data), "payloads": describe(res.Bar)}, true, fmt.Sprintf("%s batch=%d items=%s lag=%d", signal, b, bucketN(itemCount(data)), lag))
+			return true
+		}
+		okSoFar := true
+		for b := 0; b < nb && okSoFar; b++ {
+			data := genAnyN(g, r, sig, 1+r.Intn(7))
+			if itemCount(data) == 0 {
+				continue
+			}
+			var in itemsOut
+			switch d := data.(type) {
+			case ptrace.Traces:
+				in = tracesItems(d)
+			case plog.Logs:
+				in = logsItems(d)
+			case pmetric.Metrics:
+				in = metricsItems(d)
+			}
+			res := pr.produce(data)
+			if res.Class != "ok" {
+				stats["producer_"+res.Class]++
+				break
+			}
+			for _, e := range res.Events {
+				stats["event_"+e.Kind]++
+			}
+			queue = append(queue, queued{b, in, res, data})
+			for len(queue) > lag && okSoFar {
+				okSoFar = consumeOne(queue[0])
+				queue = queue[1:]
+			}
+		}
+		for len(queue) > 0 && okSoFar {
+			okSoFar = consumeOne(queue[0])
+			queue = queue[1:]
 		}
 		func() { defer func() { recover() }(); pr.p.Close(); cons.Close() }()
 	}
